@@ -155,10 +155,24 @@ Proof.
       rewrite <- !app_assoc in IH. cbn [app] in IH. exact IH.
 Qed.
 
+Lemma range_brk_ext : forall S (f g : S -> nat -> S * bool) is s,
+  (forall s i, f s i = g s i) -> range_brk is f s = range_brk is g s.
+Proof.
+  intros S f g is. induction is as [|i r IH]; intros s H; [reflexivity|].
+  cbn [range_brk]. rewrite H. destruct (g s i) as [s' b]. destruct b; [reflexivity | apply IH; exact H].
+Qed.
+
 Theorem gen_msr_retire_agrees : forall sts chosenList chosen,
   G.msr_retire (mkMsrd sts chosenList) chosen = mkMsrd sts (remove_nat chosen chosenList).
 Proof.
-  intros sts cl chosen. exact (range_brk_retire chosen cl [] sts).
+  intros sts cl chosen.
+  transitivity (range_brk (seq 0 (List.length cl)) (retire_body chosen) (mkMsrd sts cl));
+    [| exact (range_brk_retire chosen cl [] sts)].
+  (* the generated loop body is [retire_body] whichever way round its test is written (`==` with the
+     removal first, `!=` with an early continue, operands swapped) *)
+  unfold G.msr_retire. cbv zeta. apply range_brk_ext. intros m i. unfold retire_body.
+  try rewrite (Nat.eqb_sym chosen (go_index 0 (msr_chosenList m) i)).
+  destruct (Nat.eqb (go_index 0 (msr_chosenList m) i) chosen); reflexivity.
 Qed.
 
 Definition closed_sids (ev : list event) : list nat :=
